@@ -43,7 +43,9 @@ PROP = dict(
         "amd64 host with ADX and AVX-512; other code paths are decided by C09",
     ],
     mandatory_all=["compressed_pattern_g1g2g3g5:xx0x", "compressed_pattern_g1g2g3g5:xxx0", "excluded_input_error",
-                   "member:true", "member:false", "x:zero", "x:minus_one", "karabina_g3_zero", "karabina_g5_zero", "len=0"],
+                   "member:true", "member:false", "x:zero", "x:minus_one", "karabina_g3_zero", "karabina_g5_zero", "len=0",
+                   "glv:short_long", "glv:long_short", "glv:zero_long", "glv:long_zero", "glv:short_short", "glv:long_long",
+                   "glv_len:short_over", "glv_len:w64_over", "glv_len:over_short", "glv_len:over_w64", "glv_len:w64_long", "glv_len:long_w64"],
     jobs=[
         dict(name="ring_lo", pkg="c06", run="^TestC06_Ring$", shards=_levels(_CORE + _SMALL, False), checks=(6000, 40000)),
         dict(name="ring_hi", pkg="c06", run="^TestC06_Ring$", shards=_levels(_CORE, True), checks=(3500, 25000), weight=3),
@@ -53,6 +55,10 @@ PROP = dict(
         dict(name="cyclo24", pkg="c06", run="^TestC06_Cyclo$", shards=["bls24-315"], checks=(350, 2500), seeds=(5, 10), weight=5),
         dict(name="cyclo_rest", pkg="c06", run="^TestC06_Cyclo$", shards=["bls12-377", "bw6-633"], checks=(300, 5000), seeds=(2, 6), weight=3),
         dict(name="cyclo24_rest", pkg="c06", run="^TestC06_Cyclo$", shards=["bls24-317"], checks=(150, 2500), seeds=(3, 10), weight=4),
+        dict(name="glv", pkg="c06", run="^TestC06_GLVExp$", shards=["bn254", "bls12-381", "bw6-761"], checks=(700, 6000), seeds=(2, 4), weight=3),
+        dict(name="glv24", pkg="c06", run="^TestC06_GLVExp$", shards=["bls24-315"], checks=(150, 1500), seeds=(2, 4), weight=3),
+        dict(name="glv_rest", pkg="c06", run="^TestC06_GLVExp$", shards=["bls12-377", "bw6-633"], checks=(300, 6000), seeds=(1, 4), weight=2),
+        dict(name="glv24_rest", pkg="c06", run="^TestC06_GLVExp$", shards=["bls24-317"], checks=(100, 1500), seeds=(1, 4), weight=2),
         dict(name="small", pkg="c06", run="^TestC06_SmallKernels$", shards=_SMALL, checks=(4000, 60000)),
         dict(name="regress", pkg="c06", run="^TestC06_Regress", shards=PAIRING, rapid=False, weight=2),
     ] + _wb(_CORE, (1500, 20000)) + _wb(_REST, (500, 20000)),
